@@ -239,8 +239,9 @@ pub const SIG_FIELD_COMPL: &str = "narrow=field-complement-on-union-scrutinee"; 
 pub const SIG_FIELD_COMPL_TYPED: &str = "narrow=field-complement-then-typed-bind-claims-exhaustive";
 pub const SIG_PARTIAL_PAT: &str = "pattern=partial-on-union-with-non-tuple-variant"; // fixed fbadbb2
 pub const SIG_REC_BACKREF: &str = "unsound=recursive-type-backreference-misresolved";
+pub const SIG_ALT_REC: &str = "narrow=alternation-over-recursive-type-subtracts-variants"; // fixed 8b75929
 pub const SIG_ALT: &str = "unsound=alternation-subtracts-whole-variant";
-pub const SIG_REPEATED: &str = "unsound=repeated-binder-in-tuple-field-complement";
+pub const SIG_REPEATED: &str = "narrow=repeated-identifier-in-tuple-field-complement"; // fixed 45c5ceb
 pub const SIG_SINGLE_BINDER: &str = "unsound=single-binder-pattern-inherits-scrutinee-provenance";
 
 fn has_node(p: &Prog, f: &dyn Fn(&gen_::Node) -> bool) -> bool {
@@ -354,7 +355,9 @@ pub fn classify(p: &Prog, arg: &Arg, j: &Judged, cx: &mut Cx) -> Option<&'static
         let plain = p.render(&arg.src, &Repair::default());
         let src = p.render(&arg.src, &Repair { split_alt: true, ..Default::default() });
         if src != plain && !still_fails(&src, cx) {
-            return Some(SIG_ALT);
+            // over a recursive alias: the defect repaired by 8b75929; otherwise the open label half
+            let recursive = p.aliases.iter().any(|a| a == gen_::LIST_ALIAS || a == gen_::TREE_ALIAS);
+            return Some(if recursive { SIG_ALT_REC } else { SIG_ALT });
         }
     }
     // C3: the failure disappears when repeated identifiers are written as a fresh binder plus a
@@ -485,6 +488,7 @@ fn report_failure(ev: &mut Ev, p: &Prog, arg: &Arg, j: &Judged, cx: &mut Cx, ori
                 SIG_SINGLE_BINDER => "a destructuring pattern with exactly one binder gives that binder the provenance of the whole matched value (compile_match: `bindings.len() == 1`), so the narrowing of the value re-types the binder (observed on recursive aliases: `=Cons[_, t] => t` types `t` as the Cons cell) (the failure disappears when the wildcards are unused binders)",
                 SIG_REPEATED => "a repeated identifier in a tuple pattern (`=[K[a], a]`) is an equality requirement, but the pattern still takes part in the per-field complement narrowing of later branches (the failure disappears when the repetition is written as a fresh binder plus a pin step)",
                 SIG_FIELD_COMPL_TYPED => "tuple-typed parameter: after a branch that records a field-specific complement (`=[D] => …`), a branch whose field pattern is a type assertion (`=[('int)v] => …`, `=[_, 'int] => …`) makes the block count as exhaustive although other variants of the field remain (the failure disappears when the nested sub-pattern of the first branch is written `(P | P)`)",
+                SIG_ALT_REC => "an alternation with a nested pattern over a recursive type is subtracted as its whole variant (repaired by 8b75929)",
                 SIG_ALT => "complement narrowing / exhaustiveness subtracts every alternative of an alternation pattern as its whole variant, also when the alternative cannot match that variant (e.g. a positional `B[_]` against a labelled twin `B[a: 'int]`) or constrains nested structure (the failure disappears when the branch is written as one branch per alternative)",
                 SIG_UNIFY_MERGE => "unify's union/union arm skips a widened binding that is not assignable to the existing one, losing the widening (the guards model types the call correctly under the take-widened rule)",
                 _ => "known finding",
